@@ -105,7 +105,7 @@ SPEC = {
 
 CLAIM = {
     "category": "proof",
-    "text": "Theorems firstK_lfp_eq_spec and followK_lfp_eq_spec: for EVERY grammar and k the reference least-fixpoint computation returns exactly the declarative sets FirstK (k-truncated yields) and FollowK (k-truncated right contexts in sentential forms from the start symbol, end of input appended); first_any_fixpoint_superset: every fixpoint of the code's (seeded) step function contains the declarative FIRST_k, so seeding never loses a tuple; cache_order_irrelevant: for every request sequence the memoised FirstCache/FollowCache answers equal the pure function values. The uniqueness of the fixpoint for grammars without (hidden) left recursion is stated in full (first_fixpoint_unique_noLeftRec) and delivered as the _partial theorems listed in Props/C06.lean plus the per-grammar check seededAgreesWithLfp. Tied to the code by byte-identical differential runs of the real first_k / follow_k / caches in several request orders, and every set the implementation returned is compared with the verified reference.",
+    "text": "Theorems (all for ALL inputs of the Lean model, no sorry): first_k_eq_spec and followK_eq_spec — for every productive, reachable grammar without (hidden) left recursion and every k >= 1, what the faithful model of the public first_k (Jacobi iteration seeded with its own k-1 result) and follow_k (Gauss-Seidel sweeps, stop when the position map repeats, first comparison against the k-1 map) returns is exactly the declarative set FirstK (k-truncated yields) / FollowK (k-truncated right contexts of sentential forms from the start symbol, end of input appended), slot by slot; first_fixpoint_unique_noLeftRec (the uniqueness lemma: every well-formed fixpoint of the step function equals the declarative sets, so the seed cannot matter) and first_any_fixpoint_superset (every fixpoint, for every grammar, contains them); first_unique_needs_noLeftRec (with hidden left recursion the seeded iteration really ends in a non-least fixpoint); firstK_lfp_eq_spec / followK_lfp_eq_spec (the reference least-fixpoint computation used as oracle equals the declarative sets for EVERY grammar); cache_order_irrelevant (for every sequence of FirstCache::get / FollowCache::get / direct follow_k requests the answers equal the pure function values). Tied to the code by byte-identical differential runs of the real first_k / follow_k / caches in several request orders, and every set the implementation returned is compared with the verified reference.",
     "design_ref": "DESIGN.md §6 C06",
     "note": "Trusted: Lean kernel (propext, Quot.sound, Classical.choice), faithfulness of the hand-written model as observed by the differential run, harness and orchestrator. Observation reported by the check: at k = 0 FOLLOW of the start symbol is {[EOI]} rather than {ε}.",
     "technique": "Lean 4 proof over hand-written model + differential correspondence check + verified reference oracle",
